@@ -268,9 +268,34 @@ def check_history(ops):
 # ---------------------------------------------------------------------------------------
 # thread schedules
 # ---------------------------------------------------------------------------------------
+def compose_op():
+    """commands that compose a parameter list (EXTENDED COPY, PR OUT, MODE SELECT): data-out is observed"""
+    return st.one_of(
+        st.tuples(st.just("compose"), st.just("xcopy4"), paramgen.xcopy_args(False, max_cscd=2, max_seg=2)),
+        st.tuples(st.just("compose"), st.just("xcopy5"), paramgen.xcopy_args(True, max_cscd=2, max_seg=2)),
+        st.tuples(st.just("compose"), st.just("prout"), paramgen.prout_args()),
+        st.tuples(st.just("compose"), st.just("mode6"), paramgen.mode_data(False, max_pages=2)),
+        st.tuples(st.just("compose"), st.just("mode10"), paramgen.mode_data(True, max_pages=2)))
+
+
 def thread_program():
-    return st.lists(st.one_of(new_op(), new_op(), st.tuples(st.just("decode"), st.integers(0, 3)),
+    return st.lists(st.one_of(new_op(), new_op(), compose_op(), st.tuples(st.just("decode"), st.integers(0, 3)),
                               st.tuples(st.just("encode"), st.integers(0, 3))), min_size=2, max_size=5)
+
+
+def compose(kind, value):
+    value = paramgen.strip_notes(copy.deepcopy(value))
+    if kind in ("xcopy4", "xcopy5"):
+        cmd = cmds.BY_NAME["extendedcopy5" if kind == "xcopy5" else "extendedcopy4"]
+        c = cmd.cls(cmd.opcode("spc"), **value)
+    elif kind == "prout":
+        cmd = cmds.BY_NAME["persistentreserveout"]
+        extra = {k: value[k] for k in ("scope", "pr_type") if k in value}
+        c = cmd.cls(cmd.opcode("spc"), value["service_action"], **extra, **value["kw"])
+    else:
+        cmd = cmds.BY_NAME["modeselect10" if kind == "mode10" else "modeselect6"]
+        c = cmd.cls(cmd.opcode("spc"), value)
+    return ("compose", kind, bytes(c.cdb), bytes(c.dataout))
 
 
 def schedule_case(max_pre):
@@ -284,7 +309,9 @@ def run_program(ops):
     """observations of one thread's program (no oracle inside: compared afterwards)."""
     live, obs = [], []
     for op in ops:
-        if op[0] == "new":
+        if op[0] == "compose":
+            obs.append(compose(op[1], op[2]))
+        elif op[0] == "new":
             c = build(op[1], op[2], op[3])
             live.append(c)
             obs.append(("new", type(c).__name__, bytes(c.cdb), len(c.datain) if c.datain is not None else None))
@@ -302,7 +329,10 @@ def expected_program(ops):
     """what the program observes alone (each operation judged against a fresh equal command)."""
     live, obs = [], []
     for op in ops:
-        if op[0] == "new":
+        if op[0] == "compose":
+            with lib("reference composer"):
+                obs.append(compose(op[1], op[2]))  # alone, before any thread runs
+        elif op[0] == "new":
             ref = reference(op[1], op[2], op[3])
             live.append((op, ref))
             c = build(op[1], op[2], op[3])
@@ -335,10 +365,27 @@ def check_schedule(case):
                                  "switches": s.switches[:6]})
         expect(len(g) == len(w), "mismatch:thread_observation_count", thread=i)
     cl = ["threads_%d" % len(programs), "preemptions_%d" % len(s.switches)]
+    if sum(1 for p in programs if any(o[0] == "compose" for o in p)) >= 2:
+        cl.append("two_threads_compose")
     if inside:
         cl.append("preempted_inside_constructor")
     return inside, cl
 
+
+COMPOSE_PAIRS = [("xcopy5", "xcopy5"), ("xcopy4", "xcopy4"), ("prout", "prout"), ("mode10", "mode6"), ("xcopy5", "prout")]
+COMPOSE_VALUES = {
+    "xcopy5": [{"priority": 1, "immed": 1, "list_identifier": 0x11223344, "inline_data": bytearray(b"abcd")},
+               {"priority": 6, "g_sense": 1, "list_identifier": 0x55667788, "sequential_striped": 1,
+                "segment_descriptor_list": [{"descriptor_type_code": 2, "_code": 2, "block_device_number_of_blocks": 9}]}],
+    "xcopy4": [{"priority": 1, "list_identifier": 0x34, "inline_data": bytearray(b"abcd")},
+               {"priority": 6, "nrcr": 1, "list_identifier": 0x77,
+                "segment_descriptor_list": [{"descriptor_type_code": 2, "_code": 2, "block_device_number_of_blocks": 9}]}],
+    "prout": [{"service_action": 0, "kw": {"reservation_key": 0x1111, "service_action_reservation_key": 0x2222}},
+              {"service_action": 7, "scope": 0, "pr_type": 3, "kw": {"reservation_key": 0xAAAA, "relative_target_port_id": 5, "unreg": 1,
+                                                                     "transport_id": {"protocol_id": 6, "tpid_format": 0, "sas_address": b"\x50" + bytes(7)}}}],
+    "mode10": [{"medium_type": 1, "mode_pages": [{"ps": 0, "spf": 0, "page_code": 0x0A, "swp": 1, "tst": 2}]}] * 2,
+    "mode6": [{"medium_type": 2, "mode_pages": [{"ps": 0, "spf": 0, "page_code": 0x02, "buffer_full_ratio": 9}]}] * 2,
+}
 
 FIXED_PAIRS = [("read10", "inquiry"), ("write16", "read10"), ("inquiry", "readcapacity16"), ("testunitready", "read16"),
                ("modesense6", "reportluns"), ("writesame16", "getlbastatus"), ("read12", "write12"), ("movemedium", "read10"),
@@ -384,6 +431,14 @@ def enumerate_schedules(ctx):
                         if ctx.mine(n):
                             common.run_one(ctx, "enumerated_double:%s+%s" % (a, b),
                                            {"programs": progs, "schedule": [(e1, 1), (e1 + d, 0)]}, check_schedule)
+    for a, b in COMPOSE_PAIRS:
+        progs = [[("compose", a, COMPOSE_VALUES[a][0])], [("compose", b, COMPOSE_VALUES[b][1])]]
+        probe = sched.Scheduler([lambda p=progs[0]: run_program(p)], [])
+        probe.run()
+        for e1 in range(1, probe.events + 1, 1 if ctx.thorough else 3):
+            n += 1
+            if ctx.mine(n):
+                common.run_one(ctx, "enumerated_single:%s+%s" % (a, b), {"programs": progs, "schedule": [(e1, 1)]}, check_schedule)
     ctx.exhaustive_parts.append("all single-preemption schedules%s for %d fixed two-thread program pairs" %
                                 (" and double-preemption schedules on a stride-4 grid" if ctx.thorough else " (stride 4)", len(FIXED_PAIRS) if ctx.thorough else 6))
 
